@@ -424,7 +424,6 @@ SEQUENCE_encode_oer(const asn_TYPE_descriptor_t *td,
                 }
             }
             ret = asn_put_few_bits(&preamble, has_extensions, 1);
-            assert(ret == 0);
             if(ret < 0) {
                 ASN__ENCODE_FAILED;
             }
